@@ -15,7 +15,7 @@ of code points with arbitrary `isalpha/isnumeric/isspace` bits —:
 * "finishes": the token loop needs no more iterations than code points + 1 (`lex_total`), every
   token consumes at least one code point (`lex_progress`);
 * "in time roughly proportional to the input size": the number of code-point reads of all matchers,
-  counted by the instrumented model itself, is at most `10·n + 7` (`lex_steps_le`);
+  counted by the instrumented model itself, is at most `14·n + 7` (`lex_steps_le`);
 * "either returns … or reports a parse diagnostic": the result is a token list ending with EOF at
   `n`, or one of the six lexer `ParseError`s whose span is non-empty and inside the text
   (`lex_total`, `lex_error_span`); no other outcome exists (by type — `lexE_cases`).
@@ -35,7 +35,7 @@ text (or is the EOF token `(n, n+1)`), tokens are in order and do not overlap, a
 non-empty and inside the text, and without an error the stream ends with EOF. -/
 theorem lexLoop_spec (fuel : Nat) : ∀ (pos : Nat) (rest : List CP), rest.length < fuel →
     (lexLoop fuel pos rest).exhausted = false ∧
-    (lexLoop fuel pos rest).steps ≤ 10 * rest.length + 7 ∧
+    (lexLoop fuel pos rest).steps ≤ 14 * rest.length + 7 ∧
     (∀ t ∈ (lexLoop fuel pos rest).toks, pos ≤ t.start ∧ t.start < t.stop ∧
       ((t.kind ≠ .eof ∧ t.stop ≤ pos + rest.length) ∨
         t = ⟨.eof, pos + rest.length, pos + rest.length + 1⟩)) ∧
@@ -131,8 +131,8 @@ theorem lex_progress (cs : List CP) :
 
 /-- **lex_steps_le** — "finishes in time roughly proportional to the input size", for the model's
 matchers: the instrumented count of code-point reads over the whole run (whitespace regex, every
-token regex, the two extra passes over a string literal) is at most `10·n + 7`. -/
-theorem lex_steps_le (cs : List CP) : (lex cs).steps ≤ 10 * cs.length + 7 :=
+token regex, the extra passes over a string literal with escapes: backslash search, unescaping, UTF-8 validation of up to four bytes per character) is at most `14·n + 7`. -/
+theorem lex_steps_le (cs : List CP) : (lex cs).steps ≤ 14 * cs.length + 7 :=
   (lexLoop_spec (cs.length + 1) 0 cs (by omega)).2.1
 
 /-- **lex_total** — "either returns … or reports a parse diagnostic": the iteration of `lex()`
@@ -197,8 +197,9 @@ example : (lex (cps "\"aaaaaaaaaaaaaaaaaaaaaaaa")).err = some ⟨.unterminated, 
 not an INTEGER_LIT that `int()` then rejects with a ValueError -/
 example : (lex [{ val := 0xB2, numeric := true }]).err = some ⟨.unexpected, 0, 1⟩ := by decide +kernel
 
-/-- escapes decide STRING_LIT / BYTES_LIT -/
-example : ((lex (cps "\"\\n\" \"\\ff\" \"\\7f\"")).toks.map (·.kind)) =
-    [.stringLit, .bytesLit, .stringLit, .eof] := by decide +kernel
+/-- escapes decide STRING_LIT / BYTES_LIT: the unescaped bytes are valid UTF-8 (`\n`, `é` spelled
+`\C3\A9`, a raw `é` next to an escape) or not (`\ff`, a lone `\C3`) -/
+example : ((lex (cps "\"\\n\" \"\\ff\" \"\\C3\\A9\" \"é\\n\" \"\\C3\"")).toks.map (·.kind)) =
+    [.stringLit, .bytesLit, .stringLit, .stringLit, .bytesLit, .eof] := by decide +kernel
 
 end Xdsl.Lexer
